@@ -74,7 +74,7 @@ def pipeline(ctx, fresh=True):
     def one(chunk):
         if not chunk:
             return []
-        pr = vh(["wf-run"] + ([] if fresh else ["--no-fresh"]), stdin="\n".join(json.dumps({"id": x["id"], "ops": x["ops"]}) for x in chunk), timeout=20000)
+        pr = vh(["wf-run"] + ([] if fresh else ["--no-fresh"]), stdin="\n".join(json.dumps({"id": x["id"], "ops": x["ops"], "fresh": x["twin"] == "self" and x["id"] < 500}) for x in chunk), timeout=20000)
         return [json.loads(l) for l in pr.stdout.splitlines() if l.strip()]
     with cf.ThreadPoolExecutor(max_workers=nproc) as ex:
         parts = list(ex.map(one, chunks))
